@@ -111,10 +111,10 @@ def plans():
     obs = metagen.battery(['nav', 'nav', 'sel', 'chk_assoc', 'chk_id', 'consistent'], per_step=4)
     ps = []
     for name, rows in ROWS.items():
-        ps.append({'name': name, 'schema': name, 'spec': 'SpecVal', 'alpha': {'load'}, 'rowchoices': rows,
-                   'maxrows': MAXROWS, 'bound': 4, 'invariants': ['TypeOK', 'Symmetric', 'PermutationInvariant'],
-                   'properties': ['LoadIsJoin'], 'must_cover': ('VLoad',), 'budget': 1500, 'budget_thorough': 60000,
-                   'maxlen': 1, 'decorate': decorate, 'obs': obs, 'random': random_runs})
+        ps.append({'name': name, 'schema': name, 'spec': 'SpecVal', 'alpha': {'load', 'loadinto'}, 'rowchoices': rows,
+                   'maxrows': MAXROWS, 'bound': 4, 'invariants': ['TypeOK', 'Symmetric', 'PermutationInvariant', 'JoinClosed'],
+                   'properties': ['LoadIsJoin'], 'must_cover': ('VLoad', 'VLoadInto'), 'budget': 1500, 'budget_thorough': 60000,
+                   'maxlen': 3, 'decorate': decorate, 'obs': obs, 'random': random_runs})
     for name in ('valued', 'keywords', 'assoc_reflexive', 'reflexive_1m', 'grid', 'phrase_ends', 'mixed_case'):
         ps.append({'name': name + '_random', 'schema': name, 'model': False, 'bound': 4, 'decorate': decorate,
                    'obs': obs, 'random': random_runs})
@@ -192,6 +192,18 @@ def api_runs(schema, rnd, tier):
     return runs
 
 
+def split_runs(schema, rnd, tier):
+    """a population split between a build and one or two later populate() calls of loaders that hold rows only"""
+    runs = []
+    for k in range(16 if tier == 'quick' else 300):
+        rows = random_population(schema, rnd, rnd.randint(4, 16))
+        rnd.shuffle(rows)
+        cuts = sorted(rnd.sample(range(0, len(rows) + 1), 2 if k % 2 else 1))
+        parts = [rows[:cuts[0]]] + [rows[a:b] for a, b in zip(cuts, cuts[1:] + [len(rows)])]
+        runs.append({'acts': [['LoadBuild', parts[0], {}]] + [['LoadInto', p] for p in parts[1:]]})
+    return runs
+
+
 def api_plans():
     obs = metagen.battery(['nav', 'sel', 'chk_assoc'], per_step=1)
     ps = []
@@ -199,6 +211,11 @@ def api_plans():
                  'grid', 'phrase_ends', 'mixed_case'):
         ps.append({'name': name + '_api', 'schema': name, 'model': False, 'bound': 4, 'obs': obs, 'random': api_runs,
                    'opt': {'spell_attr': True}})
+    # the rows arrive in several loaders: the first builds the metamodel, the others populate it
+    for name in ('one_many', 'one_one', 'many_one_2key', 'reflexive_1m', 'assoc_class', 'subsuper', 'valued', 'grid',
+                 'mixed_case'):
+        ps.append({'name': name + '_split', 'schema': name, 'model': False, 'bound': 4, 'obs': obs, 'random': split_runs,
+                   'decorate': decorate})
     return ps
 
 
